@@ -22,7 +22,7 @@ static std::vector<Text> seg_seqs(const std::vector<const char*>&alpha,int n){
 static std::vector<Text> ref_universe(int maxsegs,bool rich){
   std::vector<const char*> sc={"","s:","t:","sx:"}, au={"","//","//h2"}, q={"","?","?q"}, f={"","#f"};
   std::vector<const char*> alpha={"",".","..","a","b:c","%2e","..."};
-  if(rich){ au.push_back("//u@H:1"); au.push_back("//[::1]"); alpha.push_back("%2E%2e"); alpha.push_back("A%41"); }
+  if(rich){ au.push_back("//u@H:1"); au.push_back("//[::1]"); alpha.push_back("%2E%2e"); alpha.push_back("A%41"); alpha.push_back(".a"); alpha.push_back("a."); }
   std::vector<Text> out;
   for(auto s:sc) for(auto a:au) for(int ab=0;ab<2;++ab) for(auto&sg:seg_seqs(alpha,maxsegs)) for(auto qq:q) for(auto ff:f){
     bool nosegs = sg.size()==1&&sg[0]==1; if(*a && !ab && !nosegs) continue;
@@ -132,6 +132,9 @@ VH_DRIVER(algebra){
     { long q=0; const char* scs[]={"ab","ac","aB","AB","abc","abd","ab+","http","h323","https","httq","a1","a2","a","b","abcdefgh","abcdefgx","abcdxfgh"};
       for(auto sa:scs) for(auto sb:scs) for(const char*rr:{":g",":/g/h","://h/p",":",":?y",":../g#f"}) for(const char*bb:{"://a/b/c/d;p?q",":x/y"}) for(int opt=0;opt<2;++opt){ ++q; Text r=T(sa)+T(rr), b=T(sb)+T(bb);
         for(int pa=0;pa<(g.pair?1:2);++pa) AW(true,pa,[&]{ addbase_event<ApiA>(r,b,opt,(int)(q%3)); },[&]{ addbase_event<ApiW>(r,b,opt,(int)(q%3)); }); } }
+    // two-character segments in front of and behind "..": ".a", "a.", "ab" are not dot segments
+    { long q=0; const char* two[]={".a","a.","ab","..","."}; for(auto x:two) for(auto y:two) for(auto z:two) for(const char*pre:{"","/","s:","//h/"}) for(const char*b:{"s://g/x/y","s:/x/.a/y"}){ ++q; Text r=T(pre)+T(x)+T("/")+T(y)+T("/")+T(z);
+        AW(true,q%2,[&]{ addbase_event<ApiA>(r,T(b),0,(int)(q%3)); },[&]{ addbase_event<ApiW>(r,T(b),0,(int)(q%3)); }); } }
     // longer random paths
     const char* segs[]={"",".","..","a","b","b:c","%2e","1:2"}; long extra= g.thorough? 200000: 4000;
     for(long i=0;i<extra;++i){ Text r; if(R.below(6)==0) r=T("s:"); if(R.below(5)==0) r.push_back('/'); int n=1+R.below(10); for(int j=0;j<n;++j){ if(j) r.push_back('/'); r=r+T(segs[R.below(8)]); } if(R.below(4)==0) r=r+T("?q"); if(R.below(4)==0) r=r+T("#f");
@@ -139,11 +142,19 @@ VH_DRIVER(algebra){
   } else if(mode=="normalize"){
     std::vector<Text> in;
     { std::vector<const char*> sc={"","s:","S:","hTtP:"}, au={"","//","//h","//H%41%7e%3a%3A","//u%3a%41@Ex.COM:1","//[ABCD::1]","//[vF.A:b]","//1.2.3.4","//U:P@h","//u%3A%7e@h%3A%2d"}, qf={"","?","?a%41%7E%3a","#","#F%2f%2F%61","?q#f","?%3A%7E%3a#%3A%61"};
-      std::vector<const char*> alpha={"",".","..","a","A","%41","%7e","%7E","%3a","%3A","%2e","%2E","b:c","%2E%2e","a%4","...","..a","%3A%61","%3A%3a%41","%2E%2E%2e","1:2",":","a_b:c","x+y:z","x-y.z:w"};
+      std::vector<const char*> alpha={"",".","..","a","A","%41","%7e","%7E","%3a","%3A","%2e","%2E","b:c","%2E%2e","a%4","...","..a","%3A%61","%3A%3a%41","%2E%2E%2e","1:2",":","a_b:c","x+y:z","x-y.z:w",".a","a.","ab","%e2%aB","%Ba%fF"};   /* (two-character segments next to "..": the tests for ".." read both characters; escapes whose FIRST digit is a letter) */
       auto paths=seg_seqs(alpha,g.thorough?3:2);
       for(auto s:sc) for(auto a:au) for(int ab=0;ab<2;++ab) for(auto&sg:paths) { bool nosegs=sg.size()==1&&sg[0]==1; if(*a&&!ab&&!nosegs) continue; const char*q=qf[(in.size())%7]; Text t=T(s)+T(a); if(ab) t.push_back('/'); if(!nosegs) t=t+sg; t=t+T(q); in.push_back(t); } }
     { long q=0; for(auto&t:colon_guard_family()) for(unsigned m:{63u,8u}) for(int owned=0;owned<2;++owned){ ++q; AW(true,q%2,[&]{ normalize_event<ApiA>(t,m,owned,(int)(q%3)); },[&]{ normalize_event<ApiW>(t,m,owned,(int)(q%3)); }); } }
     { long q=0; for(auto&t:ambiguity_family()) for(unsigned m:{63u,8u}) for(int owned=0;owned<2;++owned){ ++q; AW(true,q%2,[&]{ normalize_event<ApiA>(t,m,owned,(int)(q%3)); },[&]{ normalize_event<ApiW>(t,m,owned,(int)(q%3)); }); } }
+    // never subsampled: (1) every path of up to three segments over dot segments and their two-character look-alikes, in every path
+    // context; (2) percent-escapes with a letter as first and / or second digit, in either case, in every component
+    { long q=0; std::vector<const char*> da={".","..",".a","a.","ab","a",""}; auto ps=seg_seqs(da,3);
+      for(const char*ctx:{"","/","s:","s:/","//h/"}) for(auto&sg:ps){ if(sg.size()==1&&sg[0]==1) continue; Text t=T(ctx)+sg; for(unsigned m:{63u,8u}) for(int owned=0;owned<2;++owned){ ++q;
+        AW(true,q%2,[&]{ normalize_event<ApiA>(t,m,owned,(int)(q%3)); },[&]{ normalize_event<ApiW>(t,m,owned,(int)(q%3)); }); } }
+      const char* esc[]={"%e2","%E2","%aB","%Ba","%fF","%2e","%2E","%7e","%4a","%4A","%c3%a9"};
+      for(auto e:esc) for(const char*form:{"s://u@h/p?q#f","s://U%s@h/","s://h%s/","s://h/%s","s://h/a%sb/c","s://h/?%s","s://h/#%s","%s","s:%s","//%s@%s/%s?%s#%s"}){ char buf[200]; snprintf(buf,sizeof buf,form,e,e,e,e,e);
+        for(unsigned m:{63u,2u,4u,8u,16u,32u}) for(int owned=0;owned<2;++owned){ ++q; AW(true,q%2,[&]{ normalize_event<ApiA>(T(buf),m,owned,(int)(q%3)); },[&]{ normalize_event<ApiW>(T(buf),m,owned,(int)(q%3)); }); } } }
     static const unsigned masks[]={63,0,1,2,4,8,16,32,8|4,63^8,1|32,0x40|8,0xFFFFFFFFu,0x40,0x100};
     size_t total=in.size()*(g.thorough?64:6); double keep= total>(size_t)want? (double)want/total:1.0; long k=0;
     for(auto&t:in){ int nm= g.thorough?64:6; for(int mi=0;mi<nm;++mi){ ++k; if(keep<1.0 && (R.next()%1000000)>=keep*1000000) continue; unsigned m= g.thorough? (unsigned)mi : masks[(k+mi)%15];
